@@ -314,6 +314,35 @@ Proof.
       * rewrite upd_neq in A by exact Hne. left. eauto.
 Qed.
 
+(* graph.index of a key that is already indexed with the same successors is harmless *)
+Lemma g_index_inv' S g n ss :
+  graph_inv S g -> (S (gk n) = None \/ S (gk n) = Some ss) ->
+  graph_inv (upd S (gk n) (Some ss)) (g_index n ss g).
+Proof.
+  intros Hg [Hnew|Hold]; [now apply g_index_inv|].
+  destruct Hg as [H1 H2 H3 H4]. set (k := gk n).
+  constructor; rewrite ?g_index_nodes, ?g_index_preds, ?g_index_succs; fold k.
+  - intro k'. destruct (gdec k' k) as [->|Hne].
+    + rewrite (get_put_eq gkey_eqb gkey_eqb_spec), upd_eq. split; discriminate.
+    + rewrite (get_put_neq gkey_eqb gkey_eqb_spec) by exact Hne. rewrite upd_neq by exact Hne. apply H1.
+  - intros k' d. destruct (gdec k' k) as [->|Hne].
+    + rewrite (get_put_eq gkey_eqb gkey_eqb_spec). intro E. injection E as <-. reflexivity.
+    + rewrite (get_put_neq gkey_eqb gkey_eqb_spec) by exact Hne. apply H2.
+  - intro k'. destruct (gdec k' k) as [->|Hne].
+    + rewrite upd_eq, (get_put_eq gkey_eqb gkey_eqb_spec). eexists. split; [reflexivity|].
+      intro x. rewrite fold_set_add_In. simpl. tauto.
+    + rewrite upd_neq by exact Hne. rewrite (get_put_neq gkey_eqb gkey_eqb_spec) by exact Hne. apply H3.
+  - intros m p. rewrite index_fold_In, H4. split.
+    + intros [(l & A & B)|[-> B]].
+      * destruct (gdec p k) as [->|Hne].
+        -- exists ss. split; [apply upd_eq|]. fold k in Hold. congruence.
+        -- exists l. split; auto. now rewrite upd_neq.
+      * exists ss. split; auto. apply upd_eq.
+    + intros (l & A & B). destruct (gdec p k) as [->|Hne].
+      * rewrite upd_eq in A. injection A as <-. right. auto.
+      * rewrite upd_neq in A by exact Hne. left. eauto.
+Qed.
+
 Lemma g_remove_inv S g n :
   graph_inv S g -> graph_inv (upd S (gk n) None) (g_remove n g).
 Proof.
@@ -487,6 +516,7 @@ Local Arguments spec_oci_tag : simpl never.
 Local Arguments gkey_eqb : simpl never.
 Local Arguments verify : simpl never.
 Local Arguments is_manifest : simpl never.
+Local Arguments oci_tag_graph : simpl never.
 
 Section Oci.
   (* the universe: every digest is used with one media type and size *)
@@ -508,6 +538,7 @@ Section Oci.
   Definition canon_op (o : op) : Prop :=
     match o with
     | Push d _ | Delete d => canon_desc d
+    | Tag d _ => is_manifest (d_mt d) = true -> canon_desc d   (* Tag indexes a manifest descriptor *)
     | _ => True
     end.
 
@@ -630,11 +661,26 @@ Section Oci.
       rewrite (eqb_refl gkey_eqb gkey_eqb_spec) in Ek. discriminate.
   Qed.
 
-  Lemma oci_inv_tag s d r :
-    oci_inv s -> get N.eqb (d_dig d) (o_blobs s) <> None ->
-    oci_inv (mkOci (o_blobs s) (oci_tag d r (o_res s)) (o_graph s)).
+  (* re-indexing a stored manifest under its universe descriptor rewrites the same graph entry *)
+  Lemma oci_tag_graph_inv d blobs g :
+    (is_manifest (d_mt d) = true -> canon_desc d) ->
+    graph_inv (S_oci blobs) g -> graph_inv (S_oci blobs) (oci_tag_graph d blobs g).
   Proof.
-    intros [Hnd Hg Ht] E. constructor; cbn [o_blobs o_res o_graph]; [exact Hnd | exact Hg |].
+    intros Hc Hg. unfold oci_tag_graph. destruct (is_manifest (d_mt d)) eqn:Em; [|exact Hg].
+    destruct (get N.eqb (d_dig d) blobs) as [c|] eqn:E; [|exact Hg].
+    specialize (Hc eq_refl).
+    assert (HS : S_oci blobs (gk d) = Some (succ_of (gk d) c)).
+    { unfold S_oci. rewrite k_dig_gk, <- Hc, (eqb_refl gkey_eqb gkey_eqb_spec), E. reflexivity. }
+    eapply graph_inv_ext; [|apply g_index_inv'; [exact Hg | right; exact HS]].
+    intro k. unfold upd. destruct (gkey_eqb k (gk d)) eqn:Ek; auto.
+    apply gkey_eqb_spec in Ek. subst k. now rewrite HS.
+  Qed.
+
+  Lemma oci_inv_tag s d r :
+    oci_inv s -> (is_manifest (d_mt d) = true -> canon_desc d) -> get N.eqb (d_dig d) (o_blobs s) <> None ->
+    oci_inv (mkOci (o_blobs s) (oci_tag d r (o_res s)) (oci_tag_graph d (o_blobs s) (o_graph s))).
+  Proof.
+    intros [Hnd Hg Ht] Hc E. constructor; cbn [o_blobs o_res o_graph]; [exact Hnd | now apply oci_tag_graph_inv |].
     intros r' d' Hin. rewrite r_index_oci_tag in Hin.
     apply In_spec_oci_tag in Hin as [->|Hin]; [assumption | apply (Ht _ _ Hin)].
   Qed.
@@ -647,8 +693,8 @@ Section Oci.
     apply (In_del_inv ref_eqb ref_eqb_spec) in Hin as [Hin _]. apply (Ht _ _ Hin).
   Qed.
 
-  Lemma oci_abs_tag s d r :
-    oci_abs (mkOci (o_blobs s) (oci_tag d r (o_res s)) (o_graph s)) =
+  Lemma oci_abs_tag s d r g :
+    oci_abs (mkOci (o_blobs s) (oci_tag d r (o_res s)) g) =
     mkSpec (sp_content (oci_abs s)) (spec_oci_tag d r (sp_tags (oci_abs s))).
   Proof. unfold oci_abs. cbn [o_blobs o_res sp_content sp_tags]. now rewrite r_index_oci_tag. Qed.
 
@@ -677,11 +723,12 @@ Section Oci.
     - destruct (get N.eqb (d_dig d) (o_blobs s)); assumption.
     - (* Tag *)
       assert (Hok : forall r0, get N.eqb (d_dig d) (o_blobs s) <> None ->
-                               oci_inv (mkOci (o_blobs s) (oci_tag d r0 (o_res s)) (o_graph s)))
+                               oci_inv (mkOci (o_blobs s) (oci_tag d r0 (o_res s)) (oci_tag_graph d (o_blobs s) (o_graph s))))
         by (intros r0 E; now apply oci_inv_tag).
-      destruct r; try assumption;
-        (destruct (get N.eqb (d_dig d) (o_blobs s)) eqn:E; [|assumption];
-         apply Hok; discriminate).
+      destruct r as [m|g|]; cbn [foreign_digest_ref]; try assumption.
+      + destruct (get N.eqb (d_dig d) (o_blobs s)) eqn:E; [|assumption]. apply (Hok (RName m)). discriminate.
+      + destruct (negb (g =? d_dig d)); [assumption|].
+        destruct (get N.eqb (d_dig d) (o_blobs s)) eqn:E; [|assumption]. apply (Hok (RDig g)). discriminate.
     - (* Resolve *)
       destruct r; simpl; try assumption;
         destruct (get ref_eqb _ (r_index (o_res s))); simpl; try assumption.
@@ -732,8 +779,10 @@ Section Oci.
       unfold oci_abs; simpl. destruct (is_manifest (d_mt d)); [now rewrite r_index_oci_tag | reflexivity].
     - destruct (get N.eqb (d_dig d) (o_blobs s)); split; reflexivity.
     - split; reflexivity.
-    - destruct r; try (split; reflexivity);
-        (destruct (is_some _); [|split; reflexivity]; split; [|reflexivity]; apply oci_abs_tag).
+    - destruct r as [m|g|]; cbn [foreign_digest_ref]; try (split; reflexivity).
+      + destruct (is_some _); [|split; reflexivity]. split; [|reflexivity]. apply oci_abs_tag.
+      + destruct (negb (g =? d_dig d)); [split; reflexivity|].
+        destruct (is_some _); [|split; reflexivity]. split; [|reflexivity]. apply oci_abs_tag.
     - destruct r; try (split; reflexivity);
         destruct (get ref_eqb _ (r_index (o_res s))); try (split; reflexivity).
       destruct (get N.eqb g (o_blobs s)); split; reflexivity.
@@ -770,7 +819,8 @@ Section Oci.
     intros Hinv. destruct o; simpl; try reflexivity.
     - destruct (get N.eqb (d_dig d) (o_blobs s)); [reflexivity|]. destruct (verify d c); [discriminate|reflexivity].
     - destruct (get N.eqb (d_dig d) (o_blobs s)); reflexivity.
-    - destruct r; try reflexivity; (destruct (is_some _); [discriminate|reflexivity]).
+    - destruct r as [m|g|]; cbn [foreign_digest_ref]; try reflexivity; [|destruct (negb (g =? d_dig d)); [reflexivity|]];
+        (destruct (is_some _); [discriminate|reflexivity]).
     - destruct r; try reflexivity; destruct (get ref_eqb _ (r_index (o_res s))); try reflexivity.
       destruct (get N.eqb g (o_blobs s)); reflexivity.
     - destruct r; try reflexivity;
@@ -983,7 +1033,7 @@ Proof.
   - destruct (get N.eqb (d_dig d) (o_blobs s)) eqn:E; auto. destruct (verify d c0); auto. simpl.
     rewrite (get_put_neq N.eqb Neqb_spec); auto. intro; subst. congruence.
   - destruct (get N.eqb (d_dig d) (o_blobs s)); auto.
-  - destruct r; auto; destruct (is_some _); auto.
+  - destruct r as [m0|g0|]; cbn [foreign_digest_ref]; auto; [|destruct (negb (g0 =? d_dig d)); auto]; destruct (is_some _); auto.
   - destruct r; auto; destruct (get ref_eqb _ (r_index (o_res s))); auto.
     destruct (get N.eqb g0 (o_blobs s)); auto.
   - destruct r; auto; (destruct (get ref_eqb _ (r_index (o_res s))) as [d0|]; auto;
@@ -1039,8 +1089,8 @@ Proof.
   - destruct (get N.eqb (d_dig d) (o_blobs s)); auto.
   - assert (Hgen : forall r0, NoDup (map fst (r_index (oci_tag d r0 (o_res s)))))
       by (intro; rewrite r_index_oci_tag; now apply spec_oci_tag_nodup).
-    destruct r as [m|g|]; auto; (destruct (is_some _); auto);
-      [exact (Hgen (RName m)) | exact (Hgen (RDig g))].
+    destruct r as [m|g|]; cbn [foreign_digest_ref]; auto; [|destruct (negb (g =? d_dig d)); auto];
+      (destruct (is_some _); auto); [exact (Hgen (RName m)) | exact (Hgen (RDig g))].
   - destruct r; auto; destruct (get ref_eqb _ (r_index (o_res s))); auto.
     destruct (get N.eqb g (o_blobs s)); auto.
   - assert (Hgen : forall r0, NoDup (map fst (r_index (res_untag r0 (o_res s)))))
@@ -1083,7 +1133,8 @@ Proof.
   - assert (Hgen : forall r0, r0 <> RName n ->
                get ref_eqb (RName n) (r_index (oci_tag d0 r0 (o_res s))) = Some d).
     { intros r0 Hr0. rewrite r_index_oci_tag. rewrite get_spec_oci_tag_other; auto. discriminate. }
-    destruct r as [m|g|]; auto; (destruct (is_some _); auto).
+    destruct r as [m|g|]; cbn [foreign_digest_ref]; auto; [|destruct (negb (g =? d_dig d0)); auto];
+      (destruct (is_some _); auto).
     + apply (Hgen (RName m)). intro E. injection E as ->. simpl in Ht. rewrite N.eqb_refl in Ht. discriminate.
     + apply (Hgen (RDig g)). discriminate.
   - destruct r as [m|g|]; auto.
@@ -1564,7 +1615,8 @@ Lemma oci_never_pushed_absent h g :
   let s := fst (run oci_step oci_init h) in
   get N.eqb g (o_blobs s) = None /\
   forall d r, d_dig d = g -> snd (oci_step s (Fetch d)) = OErr ENotFound /\
-                             (r <> REmpty -> snd (oci_step s (Tag d r)) = OErr ENotFound) /\
+                             (r <> REmpty -> foreign_digest_ref d r = false ->
+                              snd (oci_step s (Tag d r)) = OErr ENotFound) /\
                              snd (oci_step s (Exists d)) = OBool false /\
                              snd (oci_step s (Delete d)) = OErr ENotFound.
 Proof.
@@ -1577,7 +1629,7 @@ Proof.
     - destruct (get N.eqb (d_dig d) (o_blobs s0)); auto. destruct (verify d c); auto. simpl.
       rewrite (get_put_neq N.eqb Neqb_spec); auto. intro; subst. apply (Hno d c); [now left | reflexivity].
     - destruct (get N.eqb (d_dig d) (o_blobs s0)); auto.
-    - destruct r; auto; destruct (is_some _); auto.
+    - destruct r as [m0|g0|]; cbn [foreign_digest_ref]; auto; [|destruct (negb (g0 =? d_dig d)); auto]; destruct (is_some _); auto.
     - destruct r as [m|g0|]; auto.
       + destruct (get ref_eqb (RName m) (r_index (o_res s0))); auto.
       + destruct (get ref_eqb (RDig g0) (r_index (o_res s0))); auto;
@@ -1591,7 +1643,7 @@ Proof.
       destruct (N.eq_dec g (d_dig d)) as [->|Hne]; [congruence|].
       now rewrite (get_del_neq N.eqb Neqb_spec). }
   split; auto. intros d r <-. simpl. rewrite Habs. simpl. repeat split; auto.
-  intro Hr. destruct r; auto. congruence.
+  intros Hr Hf. destruct r; cbn [foreign_digest_ref] in *; auto; [now rewrite Hf | congruence].
 Qed.
 
 
@@ -1688,7 +1740,7 @@ Proof.
     + rewrite (get_put_eq N.eqb Neqb_spec). intro X. injection X as <-. now apply verify_spec in V as [V _].
     + rewrite (get_put_neq N.eqb Neqb_spec) by exact Hne. apply H.
   - destruct (get N.eqb (d_dig d) (o_blobs s)); auto.
-  - destruct r; auto; destruct (is_some _); auto.
+  - destruct r as [m0|g0|]; cbn [foreign_digest_ref]; auto; [|destruct (negb (g0 =? d_dig d)); auto]; destruct (is_some _); auto.
   - destruct r as [m|g|]; auto.
     + destruct (get ref_eqb (RName m) (r_index (o_res s))); auto.
     + destruct (get ref_eqb (RDig g) (r_index (o_res s))); auto; destruct (get N.eqb g (o_blobs s)); auto.
@@ -1717,3 +1769,71 @@ Proof.
   simpl. destruct (get N.eqb (d_dig d) (o_blobs (fst (run oci_step oci_init h)))) as [c|] eqn:E; [|discriminate].
   intro X. injection X as <- _. apply (H _ _ E).
 Qed.
+
+(* ---------- tie to the source: the order of effects the models mirror ----------
+   Generated/GC06.v lists, per modelled Go function, the calls of its body in source order
+   (translator kind c06_callseq).  The hand-written step functions perform the same effects
+   in the same order; these checks fail (layer P) when a step is re-ordered, removed or
+   replaced in the Go source. *)
+Fixpoint pos_of (x : string) (l : list string) : option nat :=
+  match l with
+  | [] => None
+  | y :: l' => if String.eqb x y then Some O else option_map S (pos_of x l')
+  end.
+Definition before (a c : string) (l : list string) : bool :=
+  match pos_of a l, pos_of c l with Some i, Some j => Nat.ltb i j | _, _ => false end.
+Definition has (a : string) (l : list string) : bool := match pos_of a l with Some _ => true | None => false end.
+Definition times (a : string) (l : list string) : nat := length (filter (String.eqb a) l).
+
+Definition call_order_checks : list bool :=
+  [ (* memory store *)
+    before "s.storage.Push" "s.graph.Index" mem_Push_calls;
+    before "s.storage.Exists" "s.resolver.Tag" mem_Tag_calls;
+    before "m.content.Load" "contentpkg.ReadAll" cas_Push_calls;
+    before "contentpkg.ReadAll" "m.content.LoadOrStore" cas_Push_calls;
+    negb (has "m.content.Store" cas_Push_calls);
+    (* OCI store *)
+    before "s.sync.RLock" "s.storage.Push" oci_Push_calls;
+    before "s.storage.Push" "s.graph.Index" oci_Push_calls;
+    before "s.graph.Index" "s.tag" oci_Push_calls;
+    before "validateReference" "digest.Digest" oci_Tag_calls;
+    before "digest.Digest" "s.storage.Exists" oci_Tag_calls;
+    before "s.storage.Exists" "s.graph.Index" oci_Tag_calls;
+    before "s.graph.Index" "s.tag" oci_Tag_calls;
+    Nat.eqb (times "s.tagResolver.Tag" oci_tag_calls) 2;
+    before "s.tagResolver.Map" "s.tagResolver.Untag" oci_delete_calls;
+    before "s.tagResolver.Untag" "s.graph.Remove" oci_delete_calls;
+    before "s.graph.Remove" "s.storage.Delete" oci_delete_calls;
+    before "s.tagResolver.Resolve" "s.tagResolver.Untag" oci_Untag_calls;
+    (* file store *)
+    before "s.push" "s.graph.Index" file_Push_calls;
+    before "s.graph.Index" "s.restoreDuplicates" file_Push_calls;
+    has "s.restoreDuplicatesOfSkipped" file_Push_calls;
+    before "status.Lock" "s.resolveWritePath" file_push_calls;
+    before "s.resolveWritePath" "s.pushFile" file_push_calls;
+    has "s.fallbackStorage.Push" file_push_calls;
+    before "os.Create" "s.saveFile" file_pushFile_calls;
+    before "s.saveFile" "os.Remove" file_pushFile_calls;
+    before "s.Exists" "s.resolver.Tag" file_Tag_calls;
+    has "io.LimitReader" limited_Push_calls;
+    (* resolver *)
+    has "oldTagSet.Delete" resolver_Tag_calls;
+    before "m.lock.Lock" "tagSet.Add" resolver_Tag_calls;
+    (* oci.Storage.Push: stat, then ingest into a temp file, then rename onto the blob path *)
+    before "os.Stat" "s.ingest" ocistorage_Push_calls;
+    before "s.ingest" "os.Rename" ocistorage_Push_calls;
+    (* oci.Store.Resolve: the tag map first, the blob fallback second *)
+    before "s.tagResolver.Resolve" "resolveBlob" oci_Resolve_calls;
+    (* file store reads: name status, then digestToPath, then the fallback storage *)
+    before "s.nameExists" "s.digestToPath.Load" file_Fetch_calls;
+    before "s.digestToPath.Load" "os.Open" file_Fetch_calls;
+    before "os.Open" "s.fallbackStorage.Fetch" file_Fetch_calls;
+    before "s.nameExists" "s.digestToPath.Load" file_Exists_calls;
+    before "s.digestToPath.Load" "s.fallbackStorage.Exists" file_Exists_calls;
+    (* restoreDuplicatesFrom: successors, skip existing names, fetch by plain descriptor, push *)
+    before "content.Successors" "s.nameExists" file_restoreFrom_calls;
+    before "s.nameExists" "s.Fetch" file_restoreFrom_calls;
+    before "s.Fetch" "s.push" file_restoreFrom_calls ].
+
+Lemma call_order_from_source : forallb (fun x => x) call_order_checks = true.
+Proof. vm_compute. reflexivity. Qed.
